@@ -25,7 +25,7 @@ var abilities = []string{"store/add", "store/list", "upload/add", "space/blob/ad
 
 func pick[T any](r *rand.Rand, xs []T) T { return xs[r.Intn(len(xs))] }
 
-func i64(v int64) *int64   { return &v }
+func i64(v int64) *int64    { return &v }
 func strp(s string) *string { return &s }
 
 // ability pattern that grants `can`
